@@ -50,7 +50,7 @@ def step (st : Unit) (j : Json) : Unit × Json :=
     match op with
     | "normalize" =>
         let name ← strField j "name"
-        pure (match normalizeKernelName name with
+        pure (match normalizeKernelName name.toList with
           | .ok k => okJson (Json.str k.name)
           | .error e => errJson (errName e))
     | "bfcontext" =>
@@ -80,15 +80,15 @@ def step (st : Unit) (j : Json) : Unit × Json :=
         let schedules ← schedulesOfJson (← field j "schedules")
         let wantG := (boolField j "want_G").toOption.getD false
         let F : Fourier Float := Fourier.dft
-        let V := preprocess F r c stack
         let Karr := K.toArray
         let Parr := P.toArray
-        let n := mapping.length
-        -- numerators are computed once (they do not depend on the schedule)
-        let Garr := ((List.range n).map fun i => numerator V mapping u r c (fun t => Karr.getD t []) i).toArray
-        let pb : Problem Float :=
-          { rows := u * r, cols := u * c, n := n, G := fun i => Garr.getD i [], P := fun i => Parr.getD i [],
+        let geo : Geometry Float :=
+          { r := r, c := c, u := u, mapping := mapping, K := fun t => Karr.getD t [], P := fun t => Parr.getD t [],
             W := W, env := env, eps := eps }
+        let pb0 := problemOfStack F geo stack
+        -- numerators are memoised (they do not depend on the schedule)
+        let Garr := ((List.range pb0.n).map pb0.G).toArray
+        let pb : Problem Float := { pb0 with G := fun i => Garr.getD i [] }
         let outs := schedules.map fun sch =>
           let stk := reconstruct F k pb sch
           Json.mkObj [("stack", Json.arr (stk.map fun o => match o with
@@ -97,6 +97,13 @@ def step (st : Unit) (j : Json) : Unit × Json :=
         let base := [("runs", Json.arr outs.toArray)]
         let extra := if wantG then [("G", Json.arr (Garr.toList.map cxImgToJson).toArray)] else []
         pure (okJson (Json.mkObj (base ++ extra)))
+    | "qgrid" =>
+        let N ← natField j "N"
+        let M ← natField j "M"
+        let dx ← floatField j "dx"
+        let dy ← floatField j "dy"
+        let g : Img Float × Img Float := qGrid N M dx dy
+        pure (okJson (Json.mkObj [("qx", floatsToJson g.1), ("qy", floatsToJson g.2)]))
     | "prlx_operator" =>
         let gx ← floatField j "gx"
         let gy ← floatField j "gy"
